@@ -27,7 +27,8 @@ The fragment: one struct `foo` with scalar fields `f0 f1 : u32`, array fields
 `arr0 arr1 : array[4] u8`; methods `m<k>` all with the signature
 `(x: u32, s: slice u8, t: roslice u8, pb: ptr pixel_buffer) u32[..= 3]` (the
 body ends with `return (result & 3)`; the refinement lets a bare call be a
-slice bound) and the locals `v0 v1 : u32`, `ls : slice u8`, `lt : roslice u8`
+slice bound) and the locals `v0 v1 : u32`, `ls : slice u8`, `lt : roslice u8`; a choosy method `ch!` with
+the alternative `ch_alt!` (statement `choose ch = [ch_alt]`);
 and the loop counter `vi : u32` (every `while` loop runs at most until
 `vi = 3`, so that all programs of the fragment terminate).
 Core Lean only.
@@ -82,6 +83,7 @@ inductive Stmt
   | bind (v : Nat) (s : SRef)           -- ls = s  /  lt = s
   | copy (mark : Eff) (d s : SRef)      -- d.copy_from_slice<mark>(s: s)
   | callS (mark : Eff) (m : Nat) (a : Expr)  -- this.m<m><mark>(…) as a statement
+  | choose                              -- choose ch = [ch_alt]   (re-points the receiver's choosy method `ch`)
   deriving Repr
 
 structure Method where
@@ -153,6 +155,7 @@ def Stmt.parseOk (f : Eff) : Stmt → Bool
   | .bind _ s => s.parseOk             -- the RHS `s` is one `parseExpr`; its effect must be ≤ f, and it is pure
   | .copy mark d s => mark.le f && d.parseOk && s.parseOk   -- receiver and argument are sub-expressions of the call
   | .callS mark _ a => a.effect = .pure && a.subExprOk && mark.le f
+  | .choose => f = .impure             -- parse.go parseStatement1: "choose within pure function"
 
 def Method.parseOk (m : Method) : Bool :=
   m.body.parseOk m.eff && m.result.effect = .pure && m.result.subExprOk
@@ -198,6 +201,7 @@ def Stmt.checkOk (p : Prog) (f : Eff) : Stmt → Bool
   | .copy mark d s =>                                           -- effect mark; no roslice.copy_from_slice!
       mark = .impure && !d.readOnly f && d.checkOk p && s.checkOk p
   | .callS mark m a => calleeEff p m = some mark && a.checkOk p
+  | .choose => true
 
 def Method.checkOk (p : Prog) (m : Method) : Bool :=
   m.body.checkOk p m.eff && m.result.checkOk p
@@ -225,6 +229,7 @@ structure World where
   flds : List Nat
   arrs : List (List Nat)
   heap : List (List Nat)
+  choice : Nat := 0      -- which implementation the receiver's choosy function pointer selects
   deriving DecidableEq, Repr
 
 /-- A method activation. `slocs[0]` is `ls`, `slocs[1]` is `lt`; `sargs` likewise `s`, `t`. -/
@@ -411,6 +416,7 @@ def execS (p : Prog) : Nat → Eff → Stmt → World → Frame → Option (Worl
         match callM p fuel m x fr w1 with
         | none => none
         | some (_, w2) => some (w2, fr)
+    | .choose => some ({ w with choice := 1 }, fr)
 end
 
 end WuffsVerif.Effects
